@@ -28,6 +28,9 @@ def run(ctx: Ctx):
                                           kinds=["split", "noisy", "swapped", "dropped", "indel", "chimeric", "mirror", "partial",
                                                  "junk", "flankdup", "exact", "dup", "tiny", "stretched", "inversion",
                                                  "outscored"])
+    # short contigs, one molecule each from either end (a seeding correlation without any peak on one strand)
+    res2, lines2, out2 = file_common.explore(ctx, 6 if quick else 40, salt=55, n_qry=8, kinds=["shortcontigs"], model=False)
+    res, lines, out = res + res2, lines + lines2, out + out2
     seeds = []
     for rr, ln in zip(res, lines):
         if ln is None:
